@@ -280,8 +280,12 @@ class ServePatch(RequestHandlerBase):
 
         options.update(patch=True, segmentTimeline=True)
         options.remove_unused_parameters('live')
-        original_publish_time = datetime.datetime.fromtimestamp(
-            publish, tz=UTC())
+        try:
+            original_publish_time = datetime.datetime.fromtimestamp(
+                publish, tz=UTC())
+        except (OverflowError, OSError, ValueError) as err:
+            logging.warning('Invalid publish time %s: %s', publish, err)
+            return flask.make_response('Invalid publish time', 404)
         try:
             dash = ManifestContext(
                 manifest=mft, options=options, stream=current_stream,
@@ -294,6 +298,9 @@ class ServePatch(RequestHandlerBase):
             stream=current_stream,
             original_publish_time=original_publish_time))
 
+        # the manifest can be named with or without its .mpd extension
+        if manifest.endswith('.mpd'):
+            manifest = manifest[:-4]
         body = flask.render_template(f'patches/{manifest}.xml', **context)
         try:
             max_age = int(math.floor(context["minimumUpdatePeriod"]))
